@@ -66,6 +66,8 @@ func ScenarioByName(name string) *Scenario {
 		sc = StaticSilent(arg(1), arg(2), arg(3), arg(4))
 	case "late":
 		sc = LateWitness(arg(1))
+	case "unheard":
+		sc = Unheard(arg(1), arg(2), arg(3), arg(4), arg(5), arg(6))
 	case "returning":
 		sc = Returning(arg(1), arg(2), arg(3))
 	case "commitfault":
